@@ -75,7 +75,7 @@ func runBounded(repo, verif, prop, tier string) ([]BoundedResult, []string) {
 			timeout = 1500
 		}
 		ctx, cancel := context.WithTimeout(context.Background(), time.Duration(timeout+30)*time.Second)
-		cmd := exec.CommandContext(ctx, "go", "test", "-overlay", ovFile, "-tags", "verif", "-vet=off", "-count=1",
+		cmd := exec.CommandContext(ctx, "go", "test", "-overlay", ovFile, "-tags", "verif", "-vet=off", "-count=1", "-v",
 			fmt.Sprintf("-timeout=%ds", timeout), "-run", "^("+strings.Join(tests, "|")+")$", "./"+boundedDirs[d])
 		cmd.Dir = repo
 		cmd.Env = append(os.Environ(), "GOFLAGS=-mod=mod", "GOPROXY=off", "GOSUMDB=off", "GOTOOLCHAIN=local", "VERIF_TIER="+tier,
